@@ -92,6 +92,7 @@ def rule_C02(env):
     for f in tmp.findings:
         res.add("O5", f.key.split("/", 2)[2], "the emitted bytes are not the single well-formed opcode the simulation assumes, so memo "
                 "indices are decoded from the wrong bytes from there on: " + f.msg, f.where, f.detail)
+    PV.guard_premise(env, res, "C02")
     bfs = PV.bfs_pass(env, res, "C02")
     PV.coverage_mc(res, env, tr, n, nobl, samples, bfs)
     res.assumptions = PV.ASSUME_PVM + ["results of dyn Mutator::mutate_memo_index are the join over every impl in the crate (OffByOne, MemoIndex safe) at any rate"]
